@@ -71,8 +71,9 @@ func (l *leader) onChangeConfig(t changeConfig) {
 		return
 	}
 
+	latestIndex := l.configs.Latest.Index
 	l.checkConfigActions(t.task, t.newConf)
-	if l.configs.IsCommitted() {
+	if l.configs.Latest.Index == latestIndex {
 		if trace {
 			println(l, "no configActions changed")
 		}
@@ -133,10 +134,17 @@ func (l *leader) checkConfigActions(t *task, config Config) {
 			panic(unreachable())
 		}
 		l.doChangeConfig(t, config)
+		return
 	}
 
+	// one action per configuration entry: a started action supersedes config
+	// (with a single voter it may even be committed already)
+	latestIndex := l.configs.Latest.Index
 	for _, repl := range l.repls {
 		l.checkConfigAction(t, config, &repl.status)
+		if l.configs.Latest.Index != latestIndex {
+			return
+		}
 	}
 }
 
